@@ -70,6 +70,8 @@ for op in ("sum", "mean", "count", "var"):
     ws("expanding.%s" % op, lambda d, st, fresh, op=op: getattr(d.expanding(with_state=True, **_kw(st, fresh)).x, op)())
 ws("ewm(com=1).mean", lambda d, st, fresh: d.ewm(com=1, with_state=True, **_kw(st, fresh)).x.mean(), "ewm.mean")
 ws("ewm(alpha=.5).mean[frame]", lambda d, st, fresh: d[XY].ewm(alpha=0.5, with_state=True, **_kw(st, fresh)).mean(), "ewm.mean")
+ws("expanding.var[frame]", lambda d, st, fresh: d[XY].expanding(with_state=True, **_kw(st, fresh)).var(), "expanding.var")
+ws("expanding.mean[frame]", lambda d, st, fresh: d[XY].expanding(with_state=True, **_kw(st, fresh)).mean(), "expanding.mean")
 SCAN = [k for k in SPECS if k not in REDUCE]
 
 # --- windows ------------------------------------------------------------------------------
@@ -84,9 +86,11 @@ for n in (1, 2, 3):
     ws("%s.value_counts" % lab, lambda d, st, fresh, n=n: d.window(n=n, with_state=True, **_kw(st, fresh)).x.value_counts(), "window(n).value_counts")
     ws("%s.full" % lab, lambda d, st, fresh, n=n: d.window(n=n, with_state=True, **_kw(st, fresh)).full(), "window(n).full")
     ws("%s.sum[frame]" % lab, lambda d, st, fresh, n=n: d.window(n=n, with_state=True, **_kw(st, fresh))[XY].sum(), "window(n).sum")
+    ws("%s.var[frame]" % lab, lambda d, st, fresh, n=n: d.window(n=n, with_state=True, **_kw(st, fresh))[XY].var(), "window(n).var")
+    ws("%s.mean[frame]" % lab, lambda d, st, fresh, n=n: d.window(n=n, with_state=True, **_kw(st, fresh))[XY].mean(), "window(n).mean")
     # an expression built on the window (Window.map_partitions) must carry start= / with_state too
     ws("%s.sum[x*y+1]" % lab, lambda d, st, fresh, n=n: (lambda w: (w.x * w.y + 1).sum())(d.window(n=n, with_state=True, **_kw(st, fresh))), "window(n).sum")
-    WVAL += ["%s.%s" % (lab, x) for x in ("size", "value_counts", "full", "sum[frame]", "sum[x*y+1]")]
+    WVAL += ["%s.%s" % (lab, x) for x in ("size", "value_counts", "full", "sum[frame]", "sum[x*y+1]", "var[frame]", "mean[frame]")]
     for op in ("sum", "count", "size", "mean", "var"):
         ws("%s.groupby(col).%s" % (lab, op),
            lambda d, st, fresh, n=n, op=op: getattr(d.window(n=n, with_state=True, **_kw(st, fresh)).groupby("k").x, op)(),
